@@ -141,10 +141,19 @@ func (p *jsonPathParser) _unescapeJSONString(input []byte) (string, error) {
 }
 
 func (p *jsonPathParser) syntaxErr(pos int, reason string, buffer string) error {
+	// pos counts characters (runes), buffer is indexed by bytes.
+	offset, count := len(buffer), 0
+	for index := range buffer {
+		if count == pos {
+			offset = index
+			break
+		}
+		count++
+	}
 	return ErrorInvalidSyntax{
 		position: pos,
 		reason:   reason,
-		near:     buffer[pos:],
+		near:     buffer[offset:],
 	}
 }
 
